@@ -1,6 +1,8 @@
 import Ptk.Proto
 import Ptk.Model.C05
 import Ptk.Model.C05SkelGen
+import Ptk.Model.C05Api
+import Ptk.Gen.PyChars
 open Ptk Ptk.Py Ptk.Proto Ptk.C05
 
 /-! Line-protocol driver for the C05 model.
@@ -128,6 +130,82 @@ def parseInit (rest : List String) : Option Buf := do
     | _ => none
   | _ => none
 
+/-! extended Buffer API (Ptk.Model.C05Api):
+  `init2 <nlines> <line>* <idx> <cur> <ro> <hs> <nhist> <hist>* <N | anchor typ>`   set buffer 0
+  `op2 <name> <args>*`            one call; reply `<outcome> <buffer> Y=<yank state> C=<completion state>`
+  `qw <text>`                     `_QUOTED_WORDS_RE` words of a line
+  `tl <pre> <idx>*`               `transform_lines(idx, lambda l: pre + l)` on buffer 0 -/
+namespace ApiD
+
+def cls : Cls := { reSpace := Gen.reSpace, isSpace := Gen.isSpace, isBreak := Gen.isLineBreak }
+
+def encYank : Option YankSt → String
+  | none => "N"
+  | some y => s!"{y.pos},{y.n},{encStr y.prev}"
+
+def encComp : Option CompSt → String
+  | none => "N"
+  | some c =>
+    let idx := match c.index with | none => "N" | some i => toString i
+    s!"{encStr c.origText}@{c.origCur};{idx};{c.comps.length}" ++
+      c.comps.foldl (fun acc x => acc ++ s!";{encStr x.text}:{x.start}") ""
+
+def encBuf2 (b : Buf) : String := s!"{encBuf b} Y={encYank b.yank} C={encComp b.comp}"
+
+def decComps : List String → Option (List Completion)
+  | [] => some []
+  | t :: st :: rest => do pure (⟨← decStr t, ← decInt st⟩ :: (← decComps rest))
+  | _ => none
+
+def parseOp2 : List String → Option Op2
+  | "old" :: rest => match parseOp rest with
+    | some (.inl op) => some (.old op)
+    | _ => none
+  | ["yank", n, l] => do pure (.yankNthArg (← decOptInt n) (← decBool l))
+  | "setc" :: _n :: rest => do pure (.setCompletions (← decComps rest))
+  | ["gotoc", i] => do pure (.goToCompletion (← decOptInt i))
+  | ["cnext", c, w] => do pure (.completeNext (← decInt c) (← decBool w))
+  | ["cprev", c, w] => do pure (.completePrevious (← decInt c) (← decBool w))
+  | ["ccancel"] => some .cancelCompletion
+  | ["capply", t, st] => do pure (.applyCompletion (← decStr t) (← decInt st))
+  | ["updown", c, d] => do pure (.cursorUpDown (← decInt c) (← decInt d))
+  | ["aup", c, g, d] => do pure (.autoUp (← decInt c) (← decBool g) (← decInt d))
+  | ["adown", c, g, d] => do pure (.autoDown (← decInt c) (← decBool g) (← decInt d))
+  | ["copysel", cut, t, c] => do pure (.copySelection (← decBool cut) (← decStr t) (← decInt c))
+  | ["paste", t, c] => do pure (.pasteDoc (← decStr t) (← decInt c))
+  | ["tcl", r] => do pure (.transformCurrentLine (← decStr r))
+  | ["treg", f, t, r] => do pure (.transformRegion (← decInt f) (← decInt t) (← decStr r))
+  | ["joinn", sep] => do pure (.joinNextLine (← decStr sep))
+  | ["joins", sep] => do pure (.joinSelectedLines (← decStr sep))
+  | ["swap"] => some .swapChars
+  | ["nl", m] => do pure (.newline (← decStr m))
+  | ["ila", m] => do pure (.insertLineAbove (← decStr m))
+  | ["ilb", m] => do pure (.insertLineBelow (← decStr m))
+  | ["edres", t] => do pure (.editorResult (← decStr t))
+  | _ => none
+
+def parseInit2 (rest : List String) : Option Buf := do
+  match rest with
+  | n :: rest =>
+    let n ← decNat n
+    let (ls, rest) ← takeN n rest
+    let lines ← ls.mapM decStr
+    match rest with
+    | idx :: cur :: ro :: hs :: nh :: rest =>
+      let nh ← decNat nh
+      let (hsx, rest) ← takeN nh rest
+      let hist ← hsx.mapM decStr
+      let sel ← match rest with
+        | ["N"] => some none
+        | [a, t] => do pure (some (⟨← decInt a, ← decNat t⟩ : Sel))
+        | _ => none
+      pure { emptyBuf with lines := lines, idx := (← decNat idx), cur := (← decNat cur),
+                           readOnly := (← decBool ro), enableHS := (← decBool hs), hist := hist, sel := sel }
+    | _ => none
+  | _ => none
+
+end ApiD
+
 namespace SkD
 open Skel
 
@@ -235,6 +313,24 @@ def stepLine (d : D) (toks : List String) : D × String :=
       let (b, r) := validateAndHandle (fun _ _ => v) d.app.buf
       ({ d with app := { d.app with buf := b } }, s!"{encOptStr r} {encBuf b}")
     | none => (d, "bad-op")
+  | "init2" :: rest =>
+    match ApiD.parseInit2 rest with
+    | some b => ({ d with app := { d.app with buf := b } }, ApiD.encBuf2 b)
+    | none => (d, "bad-op")
+  | "op2" :: rest =>
+    match ApiD.parseOp2 rest with
+    | some op =>
+      let (b', o) := step2 ApiD.cls d.app.buf op
+      ({ d with app := { d.app with buf := b' } }, s!"{encOutcome o} {ApiD.encBuf2 b'}")
+    | none => (d, "bad-op")
+  | ["qw", t] =>
+    match decStr t with
+    | some t => (d, encList encStr (quotedWords ApiD.cls t))
+    | none => (d, "bad-op")
+  | "tl" :: pre :: idxs =>
+    match decStr pre, decInts idxs with
+    | some pre, some idxs => (d, encStr (transformLines d.app.buf idxs (pre ++ ·)))
+    | _, _ => (d, "bad-op")
   | ["skhello"] =>
     (d, s!"{Gen.C05.tableHash} {SkD.tbl.bindings.length} {SkD.tbl.atoms.length} {SkD.tbl.classes.length} {Gen.C05.anyKey} {Gen.C05.enterKey}")
   | "skset" :: rest =>
